@@ -98,6 +98,37 @@ theorem C20_count_announced (ext : Ext) (cfg : Settings) (w : Writer) (bm : Bool
     simpa [rowsOf_length] using this
   rw [hj, ha, he]; simp [hl]
 
+/-- **Rows refine the specification.** For the query writer (QUERY, REPLAY, COMPARE) the rows
+carried by the JSON/text frames are: first occurrence per event id, then OFFSET, then LIMIT of
+the concatenated input — for every way of cutting the input into batches, in both frame
+modes. -/
+theorem C20_rows_refine_spec (ext : Ext) (cfg : Settings) (bm : Bool) (schema : Schema)
+    (batches : List Batch) :
+    (writeJson ext cfg .query bm schema batches).rows
+      = (specRows cfg (idColOf schema) batches.flatten).map (jsonRow ext) := by
+  have h := select_query_flat cfg (idColOf schema) batches WState.init 0 rfl
+  have h2 := scan_full_spec cfg (idColOf schema) batches.flatten WState.init rfl
+  simp only [writeJson, JStream.rows, jsonFrames_rows, specRows]
+  rw [h, h2]
+  simp [WState.init]
+
+/-- Hence batch sizes do not matter for the rows and the announced count (query writer). -/
+theorem C20_batching_irrelevant (ext : Ext) (cfg : Settings) (bm bm' : Bool) (schema : Schema)
+    (b₁ b₂ : List Batch) (h : b₁.flatten = b₂.flatten) :
+    (writeJson ext cfg .query bm schema b₁).rows = (writeJson ext cfg .query bm' schema b₂).rows
+    ∧ (writeJson ext cfg .query bm schema b₁).endCount = (writeJson ext cfg .query bm' schema b₂).endCount := by
+  have hr : (writeJson ext cfg .query bm schema b₁).rows = (writeJson ext cfg .query bm' schema b₂).rows := by
+    rw [C20_rows_refine_spec, C20_rows_refine_spec, h]
+  refine ⟨hr, ?_⟩
+  rw [(C20_count_announced ext cfg .query bm schema b₁).1, (C20_count_announced ext cfg .query bm' schema b₂).1, hr]
+
+/-- The announced count never exceeds LIMIT (both writers). -/
+theorem C20_limit_respected (ext : Ext) (cfg : Settings) (w : Writer) (bm : Bool) (schema : Schema)
+    (batches : List Batch) (l : Nat) (hl : cfg.limit = some l) :
+    (writeJson ext cfg w bm schema batches).endCount ≤ l := by
+  have := select_le_limit cfg w (idColOf schema) l hl batches WState.init 0 (Nat.zero_le _)
+  simpa [writeJson] using this
+
 /-- **Same cells, partial.** If every cell's runtime type is the declared logical type of its
 column, floats are finite and no string is one that `to_json` re-parses, then every cell of
 the JSON/text frames equals the corresponding Arrow cell (numbers numerically, nulls as nulls,
@@ -241,6 +272,23 @@ theorem C20_http_status_text_always_200 (code : Nat) (hc : code ∈ statusCodes)
   rcases hc with rfl | rfl | rfl | rfl | rfl | rfl | rfl <;>
     simp [errorBytes, unixErrorHeader, decNat, Nat.toDigits, Nat.toDigitsCore, Nat.digitChar, httpStatus]
 
+/-- For the JSON renderer the HTTP status is the response's code as long as the body is
+shorter than 500 bytes. PARTIAL: for longer bodies only the first 200 bytes are parsed, which
+fails, and the front end answers 200. -/
+theorem C20_http_status_json_partial (code : Nat) (hc : code ∈ statusCodes) (msg : Bytes)
+    (h : (errorBytes .json code msg).length < httpSmallLimit) :
+    httpStatus (errorBytes .json code msg) (some code) = code := by
+  have hk : code ∈ httpKnown := hc
+  have e : errorBytes .json code msg
+      = jsonErrHead ++ (decNat code ++ jsonErrMid ++ jsonString msg ++ jsonErrTail) := by
+    simp [errorBytes, jsonErrorBytes, List.append_assoc]
+  rw [e] at h ⊢
+  have hw := hasStatus_json_head (decNat code ++ jsonErrMid ++ jsonString msg ++ jsonErrTail)
+  have hh : (jsonErrHead ++ (decNat code ++ jsonErrMid ++ jsonString msg ++ jsonErrTail)).head?
+      = some 123 := by simp [jsonErrHead]
+  simp only [httpStatus, hh, hw, h, hk]
+  simp
+
 /-- Hence the HTTP status of an error response depends on the encoding: 400 with the JSON
 renderer, 200 with the text renderer and with the Arrow renderer (whose body has `"status"`
 beyond the first 50 bytes). -/
@@ -265,5 +313,11 @@ example :
   decide
 
 example : (400 : Nat) ∈ statusCodes := by decide
+
+/-- The specification is not trivial: duplicate id dropped, OFFSET 1, LIMIT 2 over two batches. -/
+example :
+    specRows ⟨some 2, some 1⟩ (some 0) ([[[.int 1], [.int 1]], [[.int 2], [.int 3], [.int 4]]] : List Batch).flatten
+      = [[.int 2], [.int 3]] := by
+  decide
 
 end Snel.Props.C20
